@@ -304,6 +304,67 @@ def depth_limit(R, B):
         R.check(st == 'ok' and v.get_depth(0) == 1023, 'depth-1023-refused', f'cell of depth 1023 refused or wrong depth: {v!r}')
 
 
+def exotic_depth_limits(R, B, rng, quick):
+    """the depth limit holds at every level: children that are pruned branches *claim* a depth per level, Merkle cells take their child's depth one
+    level up.  Expected verdict from R1 (RefError('depth') <=> some significant level exceeds 1023)."""
+    import itertools
+
+    def pruned(mask, depths):
+        n = rc.popcount(mask)
+        bits = rc.u(rc.PRUNED, 8) + rc.u(mask, 8) + ''.join(rc.bytes_to_bits(gen.rand_hash(rng)) for _ in range(n)) + ''.join(rc.u(d, 16) for d in depths)
+        return rc.RC(bits, (), rc.PRUNED)
+
+    def attempt(name, make_ref, build_lib, W):
+        try:
+            want = make_ref()
+            expect = 'ok'
+        except rc.RefError as e:
+            if str(e) != 'depth':
+                return
+            want, expect = None, 'exc'
+        st, v = mon.call(build_lib)
+        R.count('exotic_depth_attempts')
+        R.count('exotic_depth_expect_' + expect)
+        R.counters['oracle_evaluations'] += 1
+        if expect == 'exc' and st == 'ok':
+            R.violation(f'depth-1024-accepted-{name}', f'{name}: a cell whose depth exceeds 1023 at some level was constructed: depths by level '
+                        f'{[v.get_depth(l) for l in range(4)]}', W)
+        elif expect == 'ok' and st == 'exc':
+            R.violation(f'depth-1023-refused-{name}', f'{name}: a cell of depth <= 1023 at every level was refused: {v!r}', W)
+        elif expect == 'ok':
+            R.check([v.get_depth(l) for l in range(4)] == [want.get_depth(l) for l in range(4)], f'depth-values-{name}',
+                    f'{name}: depths by level {[v.get_depth(l) for l in range(4)]} != spec {[want.get_depth(l) for l in range(4)]}', W)
+
+    values = [0, 1022, 1023] if quick else [0, 7, 1021, 1022, 1023]
+    for mask in range(1, 8):
+        n = rc.popcount(mask)
+        for depths in itertools.product(values, repeat=n):
+            p = pruned(mask, depths)
+            lp = bridge.to_lib(p)
+            for pos in range(1 if quick else 3):
+                others = [rc.RC('1')] * pos
+                lothers = [bridge.to_lib(o) for o in others]
+                W = {'child': 'pruned branch', 'mask': mask, 'claimed_depths': list(depths), 'position': pos}
+                attempt(f'ordinary-parent-of-pruned-mask{mask}', lambda: rc.RC('101', others + [p]),
+                        lambda: (lambda b: [b.store_ref(x) for x in lothers + [lp]] and b.end_cell())(B.Builder().store_bits('101')), W)
+            # a Merkle proof / update directly over the pruned branch (the Merkle cell's depth at level l is the child's at level l+1, plus one)
+            mp_bits = lambda c: rc.u(rc.MPROOF, 8) + rc.bytes_to_bits(c.get_hash(0)) + rc.u(c.get_depth(0), 16)
+            W = {'child': 'pruned branch', 'mask': mask, 'claimed_depths': list(depths), 'parent': 'merkle proof'}
+            attempt(f'merkle-proof-of-pruned-mask{mask}', lambda: rc.RC(mp_bits(p), (p,), rc.MPROOF),
+                    lambda: B.Builder(type_=rc.MPROOF).store_bits(mp_bits(p)).store_ref(lp).end_cell(), W)
+            R.cover('exotic_depth_masks', mask)
+    # Merkle proof / ordinary wrapper over plain chains at the limit
+    for d in (1021, 1022, 1023):
+        ch = gen.chain(d)
+        lch = bridge.to_lib(ch)
+        mp_bits = rc.u(rc.MPROOF, 8) + rc.bytes_to_bits(ch.hash) + rc.u(ch.depth, 16)
+        attempt('merkle-proof-of-chain', lambda: rc.RC(mp_bits, (ch,), rc.MPROOF), lambda: B.Builder(type_=rc.MPROOF).store_bits(mp_bits).store_ref(lch).end_cell(),
+                {'child': f'chain of depth {d}', 'parent': 'merkle proof'})
+        mu_bits = rc.u(rc.MUPDATE, 8) + rc.bytes_to_bits(ch.hash) * 2 + rc.u(ch.depth, 16) * 2
+        attempt('merkle-update-of-chain', lambda: rc.RC(mu_bits, (ch, ch), rc.MUPDATE),
+                lambda: B.Builder(type_=rc.MUPDATE).store_bits(mu_bits).store_ref(lch).store_ref(lch).end_cell(), {'child': f'chain of depth {d}', 'parent': 'merkle update'})
+
+
 def random_history(R, B, rng, leafs, n_ops):
     """mixed successful and failing operations on one builder; shadow re-synchronised after expected failures"""
     b = B.Builder()
@@ -372,6 +433,7 @@ def run(R):
     structured_overreads(R, B, rng)
     if R.shard == 0:
         depth_limit(R, B)
+        exotic_depth_limits(R, B, rng, quick)
     for i in range((40 if quick else 3000) // R.nshards + 1):
         random_history(R, B, rng, leafs, 40)
         R.case(mon.fp('h', i, R.shard))
@@ -383,6 +445,8 @@ def run(R):
         R.floor('fill_levels', 1024, 'set')
         R.floor('remaining_lengths', 1024, 'set')
         R.floor('depth_attempts', 4)
+        R.floor('exotic_depth_expect_exc', 20)
+        R.floor('exotic_depth_expect_ok', 20)
 
 
 def replay(R, w, rec):
@@ -395,6 +459,8 @@ def replay(R, w, rec):
         for op in mk_ops(rng, B, 1023 - w['fill_bits'], leafs) + ref_ops(rng, B, leafs):
             if op.name == w['op']:
                 apply(R, B, w['fill_bits'], w['fill_refs'], op, leafs, {})
+    elif 'claimed_depths' in w or 'parent' in w:
+        exotic_depth_limits(R, B, rng, False)
     else:
         structured_overreads(R, B, rng)
     R.case(mon.fp(1)); R.case(mon.fp(2))
